@@ -46,6 +46,21 @@ def deepcopy_node(ex, st, args):
     return E.SV(r, src.ty)
 
 
+@builtin('copy.deepcopy#token', 'A-copy-token: copy.deepcopy(token) with ONE argument runs RawTokenModel.__deepcopy__ = _clone(): a fresh free token of the same class, RULE and text (the _clone contracts of l1.tokens); with a memo argument CPython consults the memo first, so the result may be any earlier copy: nothing but its class is known')
+def deepcopy_token(ex, st, args):
+    src = args[0]
+    if src.ty.kind != 'ref': raise E.Unsupported('copy.deepcopy of a non-token')
+    if len(args) > 1:
+        r = E.fresh('memoised', E.I); st.defs.append(And(r > 0, ex.typ(r) == ex.typ(src.t))); return E.SV(r, src.ty)
+    r = ex.alloc(st, 'copy'); st.defs.append(ex.typ(r) == ex.typ(src.t))
+    for f in ('_raw_text', 'RULE'):
+        if ex.p.field_ty('RawTokenModel', f) is not None: ex.write(st, r, 'RawTokenModel', f, ex.read(st, src.t, 'RawTokenModel', f).t)
+    for f in ('g_store', 'g_pos'):
+        if ex.p.field_ty('RawTokenModel', f) is not None: ex.write(st, r, 'RawTokenModel', f, IntVal(0))
+    return E.SV(r, src.ty)
+deepcopy_token.fresh_classes = ('RawTokenModel',)
+
+
 # ---------------------------------------------------------------- abstract file system (A-fs) for editor.py
 # FS is one ghost array path -> content kept in the field ('Editor', 'g_fs') of the editor object (`self`); a text-mode open WITH newline=''
 # hands out / stores the content verbatim; WITHOUT it the content is translated (universal newlines) - an uninterpreted function nl_translate.
